@@ -7,6 +7,8 @@ import Sio.Props.C04
 #print axioms Sio.C04.sids_fresh
 #print axioms Sio.C04.sids_fresh_later
 #print axioms Sio.C04.disconnect_once
+#print axioms Sio.C04.disconnect_api_runs
+#print axioms Sio.C04.disconnect_client_runs
 #print axioms Sio.C04.disconnect_after_end
 #print axioms Sio.C04.after_end
 #print axioms Sio.C04.end_paths
